@@ -15,7 +15,7 @@ from mc.space import explore
 
 PROP = "C02"
 RULE = ("C01 space S1..S5; (i) bytes written by the implementation decoded by mc.refcodec (own msgpack subset, frames, ext-14 "
-        "sub-types, recomputed descriptor hash); (ii) the same records encoded by refcodec in 9 wire variants and decoded by "
+        "sub-types, recomputed descriptor hash); (ii) the same records encoded by refcodec in 11 wire variants and decoded by "
         "RecordStreamReader, judged against refcodec's own decoding of those bytes; (iii) frozen golden corpus. non-trivial = "
         "record accepted by constructors and not all-None")
 
@@ -29,6 +29,9 @@ VARIANTS = {
     "repeatdesc": {"repeat_desc": True},
     "repeatheader": {"repeat_header": True},
     "binnames": {"bin_names": True},
+    # an archived stream whose records refer to their type by bare name and whose parts each announce their types again
+    "bare+repeat": {"bare_ident": True, "repeat_desc": True},
+    "noversion+repeat": {"drop_version": True, "bare_ident": True, "repeat_desc": True},
 }
 
 
@@ -124,6 +127,17 @@ def run_case(case):
             viol.append(("C02:ref->impl:%s:raises-%s" % (vn, type(e).__name__), case, {"error": repr(e)[:300], "hex": rdata.hex()[:600]}))
             outs.append("ii-raise")
             continue
+        if vn in ("current", "repeatheader"):
+            # the same conforming bytes consumed in two goes (first record, then the rest) by one reader
+            from mc.faults import drain_resumed
+
+            with warnings.catch_warnings():
+                warnings.simplefilter("ignore")
+                from flow.record import RecordStreamReader
+
+                items2, exc2 = drain_resumed(RecordStreamReader(io.BytesIO(rdata)))
+            if exc2 is not None or obs_list(items2) != got:
+                viol.append(("C02:ref->impl:%s:resumed-reading-differs" % vn, case, {"error": repr(exc2)[:200], "read": len(items2), "in_one_go": len(got)}))
         d = recs.list_diff(ref_view, got)
         if d:
             idx, where, ftype, cls = d
